@@ -104,7 +104,10 @@ class CSSCharsetRule(cssrule.CSSRule):
 
         encodingtoken = self._nexttoken(tokenizer)
         encodingtype = self._type(encodingtoken)
-        encoding = self._stringtokenvalue(encodingtoken)
+        # (only a STRING has a string value: the token may be EOF with no value)
+        encoding = None
+        if self._prods.STRING == encodingtype:
+            encoding = self._stringtokenvalue(encodingtoken)
         if self._prods.STRING != encodingtype or not encoding:
             wellformed = False
             self._log.error('CSSCharsetRule: no encoding found; %r.' %
